@@ -199,7 +199,27 @@ func runC11(cfg runCfg) error {
 		if kind != "list_replaced" {
 			world.pollSDL[x.Name] = slowedNew
 		}
+		// a request that passes validation but is refused by the planner (an alias reserved for the gateway), served before the
+		// refresh: whatever it leaves behind must not get in the way of the refresh or of later requests
+		if ci%2 == 1 {
+			rejected, rerr := gw.do(context.Background(), "query Op { movies { _bramble_id: title } }", nil, "", nil)
+			sum.Features["planner_rejected_request_first"]++
+			if rerr != nil || !cleanError(rejected) {
+				sum.GoOracle = append(sum.GoOracle, oracleResult{Case: name + "-0", Component: "prop.c11.one_generation_or_clean_error", OK: false,
+					Detail: "a query with a reserved alias was not answered with an error-only response"})
+			}
+		}
 		var refreshErr error
+		refreshDone := make(chan struct{})
+		refreshHung := false
+		runRefresh := func() {
+			go func() { refreshErr = refresh(); close(refreshDone) }()
+			select {
+			case <-refreshDone:
+			case <-time.After(8 * time.Second):
+				refreshHung = true
+			}
+		}
 		switch kind {
 		case "swap_between_validation_and_execution":
 			for i := range reqs {
@@ -215,12 +235,12 @@ func runC11(cfg runCfg) error {
 				case <-time.After(5 * time.Second):
 				}
 			}
-			refreshErr = refresh()
+			runRefresh()
 			close(release)
 		default:
 			var rw sync.WaitGroup
 			rw.Add(1)
-			go func() { defer rw.Done(); refreshErr = refresh() }()
+			go func() { defer rw.Done(); runRefresh() }()
 			for i := range reqs {
 				time.Sleep(jitter[i])
 				start(i, false)
@@ -244,6 +264,7 @@ func runC11(cfg runCfg) error {
 				sum.GoOracle = append(sum.GoOracle, oracleResult{Case: cname, Component: comp, OK: ok, Detail: d})
 			}
 			resp := got[i]
+			add("prop.c11.refresh_completes", !refreshHung, "UpdateSchema / UpdateServiceList did not return within 8 s (deadlock)")
 			if hung || resp == nil {
 				add("prop.c11.terminates", false, "the request did not return within 20 s")
 				resp = &gwResponse{Status: -1}
@@ -274,6 +295,10 @@ func runC11(cfg runCfg) error {
 				"parked_between_validation_and_execution": kind == "swap_between_validation_and_execution" && i%2 == 0,
 				"data": "generated from the case seed", "response": respKey(resp)}
 			sum.Features["kind_"+kind]++
+		}
+		if hung || refreshHung {
+			sum.Features["stopped_after_a_hang"]++
+			break // one deadlock is a finding; the remaining cases would each wait for their timeouts
 		}
 		if differ {
 			distinct++
